@@ -15,8 +15,8 @@ Definition all_paths := [PAssign; PCompound; PPostInc; PPreDec; PElem; PMemberSt
 
 Definition mk (sh : shape) (c : bool) (mc : list bool) (vs : list Z) : obj :=
   {| oshape := sh; oconst := c; omconst := mc; ovals := vs |}.
-Definition st0 (os : list obj) (ps : list ptr) : state := {| objs := os; ptrs := ps |}.
-Definition pt (t : tgt) (pc cc : bool) : ptr := {| ptgt := Some t; ppc := pc; pcc := cc |}.
+Definition st0 (os : list obj) (ps : list ptr) : state := {| objs := os; ptrs := ps; gbad := false |}.
+Definition pt (t : tgt) (pc cc : bool) : ptr := mk_ptr (Some t) pc cc false false.
 
 (* [cst] = true: the qualifier under test is present; false: the control twin without it *)
 Definition scalar_cell (cst : bool) (p : mpath) : option (state * list op) :=
@@ -138,6 +138,8 @@ Definition oc := mk Scalar true [] [5].
 Definition ac := mk Arr true [] [1; 2; 3].
 Definition sc := mk Struct true [false; false] [1; 2].
 Definition sm := mk Struct false [true; false] [1; 2].
+Definition on := mk Scalar false [] [5].
+Definition an := mk Arr false [] [1; 2; 3].
 Definition cp_state := st0 [mk Arr false [] [1; 2; 3]; mk Scalar false [] [7]] [pt (TSlot 0 1) false true].
 
 Definition witness (st : site) : state * list op :=
@@ -175,8 +177,85 @@ Definition witness (st : site) : state * list op :=
   | SReseatAssign => (cp_state, [OPtrSet 0 (PAddr (TSlot 1 0))])
   | SReseatCompound => (cp_state, [OPtrMove FCompound 0 1])
   | SReseatIncDec => (cp_state, [OPtrMove FIncDec 0 1])
+  (* derivation chains: the witness of a site is the shortest chain that only this test stops *)
+  | SRefLocalViaLocal => (st0 [oc] [], [OHRef false true (HObj 0); OHRef false false (HVia 0); OHStore FAssign 1 0 9])
+  | SRefLocalViaParam => (st0 [oc] [], [OHRef true true (HObj 0); OHRef false false (HVia 0); OHStore FAssign 1 0 9])
+  | SRefLocalCRef => (st0 [on] [], [OHRef false true (HObj 0); OHRef false false (HVia 0); OHStore FAssign 1 0 9])
+  | SRefParamViaLocal => (st0 [oc] [], [OHRef false true (HObj 0); OHRef true false (HVia 0); OHStore FAssign 1 0 9])
+  | SRefParamViaParam => (st0 [oc] [], [OHRef true true (HObj 0); OHRef true false (HVia 0); OHStore FAssign 1 0 9])
+  | SRefMemberConst => (st0 [sm] [], [OHRef false false (HObj 0); OHStore FAssign 0 0 9])
+  | SRefStructRead => (st0 [sc] [], [OHRef true true (HObj 0); OHRead 0; OHStore FAssign 0 0 9])
+  | SRefStructFresh => (st0 [sc] [], [OHRef true true (HObj 0); OHStore FAssign 0 0 9])
+  | SPtcParamStore => (st0 [oc] [], [OPtrParam true (PAddr (TSlot 0 0)); OPtrStore PDeref 0 0 9])
+  | SPtrCopyArgParam => (st0 [oc] [], [OPtrParam true (PAddr (TSlot 0 0)); OPtrParam false (PCopy 0); OPtrStore PDeref 1 0 9])
+  | SAliasOwnConst => (st0 [an] [], [OHRef true true (HObj 0); OHStore FAssign 0 1 9])
+  | SAliasParentStore => (st0 [ac] [], [OHRef true false (HObj 0); OHStore FAssign 0 1 9])
+  | SAliasParentIncDec => (st0 [ac] [], [OHRef true false (HObj 0); OHStore FIncDec 0 1 1])
+  | SAliasParentWhole => (st0 [ac] [], [OHRef true false (HObj 0); OHWhole 0 [4; 5; 6]])
+  | SAliasDeep => (st0 [ac] [], [OHRef true false (HObj 0); OHRef true false (HVia 0); OHStore FAssign 1 1 9])
   end.
 
 (* the tests the pinned implementation lacks, and those whose absence lets a protected value change *)
 Definition mech_holes : list site := filter (fun st => negb (mech_chk st)) all_sites.
 Definition mech_value_holes : list site := filter (fun st => negb (mech_chk st) && mech_eff st) all_sites.
+
+(* ------------------------------------------------------------------ derivation chains
+   A chain starts at an object (const or not), derives a handle from it, a handle from that handle, ... (each link a
+   local declaration or a parameter of a further callee, const or not) and ends with a store through the last handle.
+   The property demands a rejection as soon as the object or any link is const. *)
+
+(* references: links = (parameter?, const?) *)
+Fixpoint ref_links (n : nat) (src : hsrc) (ls : list (bool * bool)) : list op :=
+  match ls with
+  | [] => []
+  | (par, rc) :: r => OHRef par rc src :: ref_links (S n) (HVia n) r
+  end.
+(* [rd]: the members are read through the last reference before the store (struct only) *)
+Definition ref_chain (cst strct rd : bool) (ls : list (bool * bool)) (f : dform) : state * list op :=
+  (st0 [if strct then mk Struct cst [false; false] [71; 72] else mk Scalar cst [] [73]] [],
+   ref_links 0 (HObj 0) ls ++ (if strct && rd then [OHRead (length ls - 1)] else []) ++ [OHStore f (length ls - 1) 0 3]).
+
+(* array parameters: links = const? ; the final store: Some f = a[1] f 1, None = whole-array assignment *)
+Definition alias_chain (cst : bool) (ls : list bool) (f : option dform) : state * list op :=
+  (st0 [mk Arr cst [] [81; 82; 83]] [],
+   ref_links 0 (HObj 0) (map (fun rc => (true, rc)) ls) ++
+   [match f with Some f => OHStore f (length ls - 1) 1 1 | None => OHWhole (length ls - 1) [4; 5; 6] end]).
+
+(* pointers: what the first pointer is the address of; links = (how the pointer is acquired, pointer to const?) *)
+Inductive proot := RScalar | RElem | RStructObj | RMemberSlot.
+Definition proot_obj (cst : bool) (r : proot) : obj :=
+  match r with
+  | RScalar => mk Scalar cst [] [91]
+  | RElem => mk Arr cst [] [92; 93; 94]
+  | RStructObj | RMemberSlot => mk Struct cst [false; false] [95; 96]
+  end.
+Definition proot_tgt (r : proot) : tgt :=
+  match r with RScalar => TSlot 0 0 | RElem => TSlot 0 1 | RStructObj => TObj 0 | RMemberSlot => TSlot 0 0 end.
+Fixpoint ptr_links (n : nat) (src : psrc) (ls : list (amode * bool)) : list op :=
+  match ls with
+  | [] => []
+  | (md, pc) :: r =>
+      match md with
+      | ADecl => [OPtrNew pc false (Some src)]
+      | AAssign => [OPtrNew pc false None; OPtrSet n src]
+      | AArg => [OPtrParam pc src]
+      end ++ ptr_links (S n) (PCopy n) r
+  end.
+Definition ptr_chain (cst : bool) (r : proot) (ls : list (amode * bool)) (f : pform) : state * list op :=
+  (st0 [proot_obj cst r] [], ptr_links 0 (PAddr (proot_tgt r)) ls ++ [OPtrStore f (length ls - 1) 0 (match f with PDerefInc => 1 | _ => 3 end)]).
+Definition proot_forms (r : proot) : list pform :=
+  match r with RStructObj => [PDerefMember; PArrow] | RMemberSlot => [PDeref; PDerefExpr] | _ => [PDeref; PDerefInc; PDerefExpr] end.
+
+(* all link lists of length 1 .. n over an alphabet *)
+Fixpoint lists_upto {A} (al : list A) (n : nat) : list (list A) :=
+  match n with
+  | O => []
+  | S k => map (fun a => [a]) al ++ flat_map (fun l => map (fun a => a :: l) al) (lists_upto al k)
+  end.
+Definition ref_alpha : list (bool * bool) := [(false, false); (false, true); (true, false); (true, true)].
+Definition ptr_alpha : list (amode * bool) := [(ADecl, false); (ADecl, true); (AAssign, false); (AAssign, true); (AArg, false); (AArg, true)].
+Definition alias_finals : list (option dform) := [Some FAssign; Some FCompound; Some FIncDec; None].
+Definition all_proots := [RScalar; RElem; RStructObj; RMemberSlot].
+
+(* what the property demands of a chain *)
+Definition chain_expect (cst : bool) (consts : list bool) : verdict := if cst || existsb (fun b => b) consts then VRejected else VChanged.
